@@ -21,7 +21,7 @@
 //
 // Every execution of a `go` line starts from a fresh queue and writes ONE trace line
 //
-//	go <replay reps> <mode> r|b=<ms> => h=<events> cap=.. maxlen=.. minlen=.. maxslice=.. dup=.. zero=.. torn=.. final=.. flen=.. wb=.. fill=.. over=.. drain=.. under=.. stuck=.. hang=.. recheck=.. [postpanic=..]
+//	go <replay reps> <mode> r|b=<ms> => h=<events> cap=.. maxlen=.. minlen=.. maxslice=.. dup=.. zero=.. torn=.. spur=.. final=.. flen=.. wb=.. fill=.. over=.. drain=.. under=.. stuck=.. hang=.. recheck=.. [postpanic=..]
 //
 // (the op part of a trace line is what the shrinker replays: `r` = replayed line, run <replay reps>
 // times; `b=<ms>` = a scenario that blocked for the bound, replayed with a shorter bound).
@@ -32,7 +32,9 @@
 // time; final/flen/wb are read at quiescence (wb through hooks/queue/zz_verif_bqueue.go); fill/over/
 // drain/under are the non-blocking fill and drain after the scenario; stuck = a `none` call that stayed
 // blocked for the bound while it could proceed; hang = a call that did not return for the bound after
-// its context ended; recheck = context errors that came from the array queue's post-lock re-check.
+// its context ended; recheck = context errors that came from the array queue's post-lock re-check;
+// spur = calls (tid:op:ctxkind) that answered a context error while their context was still live after
+// the call had returned (contexts are monotone: it was live during the whole call).
 //
 // events: i.<tid>.e.<v>.<ctxkind> i.<tid>.d.<ctxkind> i.<tid>.l i.<tid>.s   r.<tid>.ok r.<tid>.v.<x> r.<tid>.ctx r.<tid>.err
 // r.<tid>.n.<k> r.<tid>.s.<a_b_c> r.<tid>.panic
@@ -491,6 +493,7 @@ type stats struct {
 	RecheckCtx int            `json:"ctx_errors_from_post_lock_recheck"`
 	AcquireCtx int            `json:"ctx_errors_from_acquire"`
 	Hangs      int            `json:"hangs"`
+	Spurious   int            `json:"ctx_errors_with_live_context"`
 	Stuck      int            `json:"stuck"`
 	Wedged     int            `json:"wedged"`
 	Stopped    bool           `json:"stopped_early"`
@@ -500,6 +503,8 @@ type stats struct {
 	Lines      int            `json:"lines"`
 	Distinct   int            `json:"distinct_state_op_pairs"`
 	seen       map[string]struct{}
+	goLines    int
+	floodLines int
 }
 
 type scenario struct {
@@ -578,6 +583,7 @@ func (sc *scenario) run(mode string, st *stats) (string, bool, bool) {
 	var progress atomic.Int64
 	var recheck, acqctx atomic.Int64
 	var resMu sync.Mutex
+	var spur []string // calls that answered a context error although their context had not ended (under resMu)
 	resKinds := map[string]int{}
 	start := make(chan struct{})
 	var arrived atomic.Int64
@@ -722,10 +728,18 @@ func (sc *scenario) run(mode string, st *stats) (string, bool, bool) {
 				if p != "" {
 					res = "panic"
 				}
+				// "a context error only when the context ended": contexts are monotone, so a context that
+				// is still live AFTER the call returned was live during the whole call
+				spurious := res == "ctx" && ctx.Err() == nil
 				logEv(fmt.Sprintf("r.%d.%s", t, res))
 				inflight[t].Store(nil)
 				progress.Add(1)
 				cancel()
+				if spurious {
+					resMu.Lock()
+					spur = append(spur, fmt.Sprintf("%d:%s:%s", t, c.op, c.ctx))
+					resMu.Unlock()
+				}
 				if res == "ctx" && sc.kind == "abq" {
 					if atomic.LoadInt32(&sp.errs) >= 2 {
 						recheck.Add(1)
@@ -875,6 +889,13 @@ func (sc *scenario) run(mode string, st *stats) (string, bool, bool) {
 		}
 		return strings.Join(xs, ",")
 	}
+	resMu.Lock()
+	fmt.Fprintf(&b, " spur=%s", dash(spur))
+	if len(spur) > 0 {
+		detections.Add(1)
+	}
+	st.Spurious += len(spur)
+	resMu.Unlock()
 	if len(hang) > 0 || len(wedged) > 0 {
 		fmt.Fprintf(&b, " final=skip wb=skip fill=skip over=skip drain=skip under=skip stuck=%s hang=%s wedged=%s recheck=%d", dash(stuck), dash(hang), dash(wedged), recheck.Load())
 		detections.Add(1)
@@ -1014,10 +1035,25 @@ func (sc *scenario) run(mode string, st *stats) (string, bool, bool) {
 	return b.String(), slow, false
 }
 
+// run executes the ops and closes the trace with ONE `end` line saying how many scenario lines were
+// written and whether the run was stopped early (the driver compares with what it read and applies its
+// floor on conclusively decided histories).
 func run(ops []string, out *vlib.Out, st *stats) {
+	runOps(ops, out, st)
+	stopped := 0
+	if st.Stopped {
+		stopped = 1
+	}
+	out.Line("end => go=%d flood=%d stopped=%d", st.goLines, st.floodLines, stopped)
+}
+
+func runOps(ops []string, out *vlib.Out, st *stats) {
 	var sc *scenario
 	for _, line := range ops {
 		w := strings.Fields(line)
+		if len(w) == 0 || w[0] == "end" { // the closing line of a trace that is being replayed
+			continue
+		}
 		st.Lines++
 		switch w[0] {
 		case "new":
@@ -1047,6 +1083,7 @@ func run(ops []string, out *vlib.Out, st *stats) {
 			st.Scenarios["flood"]++
 			obs, fatal := runFlood(sc.kind, sc.cap, np, nc, n, st)
 			out.Line("%s => %s", line, obs)
+			st.floodLines++
 			if fatal {
 				st.Stopped = true
 				st.Distinct = len(st.seen)
@@ -1072,6 +1109,7 @@ func run(ops []string, out *vlib.Out, st *stats) {
 			for i := 0; i < reps; i++ {
 				st.Scenarios[mode]++
 				obs, slow, fatal := sc.run(mode, st)
+				st.goLines++
 				if fatal {
 					// the queue under test is wedged / a call never returned: goroutines are stuck inside it
 					// for good.  Report this scenario and stop; the pipeline evaluates the trace so far.
